@@ -84,6 +84,28 @@ def _read_before_write(stmts):
     return out
 
 
+def _is_plain_bool(x):
+    import numpy
+    return isinstance(x, (bool, numpy.bool_))
+
+
+def sym_and(x, y):
+    """`x and y` where either may be symbolic; plain python values keep python's semantics"""
+    if not isinstance(x, shim.B) and not isinstance(y, shim.B) and not (_is_plain_bool(x) and _is_plain_bool(y)):
+        return x and y
+    return shim.B.lift(x) & shim.B.lift(y)
+
+
+def sym_or(x, y):
+    if not isinstance(x, shim.B) and not isinstance(y, shim.B) and not (_is_plain_bool(x) and _is_plain_bool(y)):
+        return x or y
+    return shim.B.lift(x) | shim.B.lift(y)
+
+
+def sym_not(x):
+    return ~x if isinstance(x, shim.B) else (not x)
+
+
 def bind_module_constants(src, ns):
     """module-level `NAME = <literal>` assignments of the file (e.g. `_AXES = (0, 1, 2)`), for names the namespace lacks"""
     for st in ast.parse(src).body:
@@ -130,7 +152,9 @@ class RefractCut:
         if any(isinstance(n, ast.Break) for st in self.post + pre_all for n in ast.walk(st)):
             raise shim.TraceError('refract: break outside the loop')
         body_assigned = _assigned(self.body)
-        control = [n for n in _loaded([self.guard]) if n in body_assigned]
+        self.local_helpers = {h.name: h for h in helpers}
+        guard_reads = self._reads_through(self.guard)
+        control = [n for n in guard_reads if n in body_assigned]
         if len(control) != 2:
             raise shim.TraceError('refract: the loop condition reads %s of the names its body assigns (expected a counter and a step size)' % control)
         self.init, self.pre = {}, []
@@ -159,7 +183,21 @@ class RefractCut:
         self.guard_src = ast.unparse(self.guard)
         self.info = {'params': self.params, 'defaults': self.defaults, 'init': {'counter': self.init[self.counter], 'eps': self.init[self.eps]},
                      'names': {'counter': self.counter, 'eps': self.eps, 'to': self.to}, 'guard_src': self.guard_src,
-                     'guard_reads_cap': 'max_iterations' in _loaded([self.guard]), 'body_assigns': body_assigned, 'has_cap': self.has_cap}
+                     'guard_reads_cap': 'max_iterations' in guard_reads, 'body_assigns': body_assigned, 'has_cap': self.has_cap}
+
+    def _reads_through(self, node, depth=0):
+        """names the expression reads, directly or THROUGH calls of the function's own local helper functions (closures
+        read the enclosing locals; their parameters are bound to what the call passes, whose reads are counted at the call)"""
+        out = []
+        for n in _loaded([node]):
+            if n not in out: out.append(n)
+            h = self.local_helpers.get(n)
+            if h is not None and depth < 3:
+                params = {a.arg for a in h.args.args + h.args.kwonlyargs}
+                for st in h.body:
+                    for r in self._reads_through(st, depth + 1):
+                        if r not in params and r not in out: out.append(r)
+        return out
 
     @staticmethod
     def _normalise(loop):
@@ -210,10 +248,7 @@ class RefractCut:
         import builtins, copy
         sb = lambda x: x if isinstance(x, shim.B) else builtins.bool(x)
         nanf = lambda x: shim.var('NaN') if isinstance(x, str) and x.strip().lower() == 'nan' else shim._float(x)
-        ns = shim.base_namespace({'len': shim.sym_len, 'bool': sb, 'float': nanf,
-                                  '__and__': lambda x, y: shim.B.lift(x) & shim.B.lift(y),
-                                  '__or__': lambda x, y: shim.B.lift(x) | shim.B.lift(y),
-                                  '__not__': lambda x: ~shim.B.lift(x)})
+        ns = shim.base_namespace({'len': shim.sym_len, 'bool': sb, 'float': nanf, '__and__': sym_and, '__or__': sym_or, '__not__': sym_not})
         vals = {'vector': shim.sym('v', vshape), 'normvector': shim.sym('n', nshape), 'n1': shim.var('n1'), 'n2': shim.var('n2'),
                 'error': shim.var('error'), 'max_iterations': shim.var('cap')}
         shim.load(TORCH, [], ns)                     # module-level helpers of the file (a private helper a refactoring introduces)
@@ -222,19 +257,27 @@ class RefractCut:
             if p_ not in vals:
                 raise shim.TraceError('refract has an unknown parameter %s' % p_)
             ns[p_] = vals[p_]
-        self._exec(copy.deepcopy(self.pre), ns)
+        # local helper functions (closures over the function's locals) are defined by the prologue INSIDE ns: every piece is run
+        # in that same dict (restored to the state the prologue left, loop state replaced by symbols), so that a closure such as
+        # `still_searching()` reads the piece's eps / counter; python's and / or / not inside local helpers are made symbolic
+        pre = [(_SymBool().visit(st) if isinstance(st, ast.FunctionDef) else st) for st in copy.deepcopy(self.pre)]
+        self._exec(pre, ns)
+        base = dict(ns)
         to0 = ns[self.to]
         m = int(_np_size(to0))
-        nsb = dict(ns); nsb[self.to] = shim.sym('to', (m,)); nsb[self.counter] = shim.var('num')
-        self._exec(copy.deepcopy(self.body), nsb)
-        nsg = dict(ns); nsg[self.eps] = shim.sym('eps', (m,)); nsg[self.counter] = shim.var('num')
+        def piece(**state):
+            ns.clear(); ns.update(base); ns.update(state)
+        piece(**{self.to: shim.sym('to', (m,)), self.counter: shim.var('num')})
+        self._exec(copy.deepcopy(self.body), ns)
+        step, eps, num = ns[self.to], ns[self.eps], ns[self.counter]
+        piece(**{self.eps: shim.sym('eps', (m,)), self.counter: shim.var('num')})
         if not self.has_cap:
-            nsg['max_iterations'] = shim.const(0)
-        guard = self._eval(_SymBool().visit(copy.deepcopy(self.guard)), nsg)
-        nsp = dict(ns); nsp[self.to] = shim.sym('to', (m,)); nsp[self.eps] = shim.sym('eps', (m,))
-        self._exec(copy.deepcopy(self.post), nsp)
-        out = self._eval(copy.deepcopy(self.ret), nsp)
-        return {'to0': to0, 'step': nsb[self.to], 'eps': nsb[self.eps], 'num': nsb[self.counter], 'guard': shim.B.lift(guard), 'out': out, 'm': m}
+            ns['max_iterations'] = shim.const(0)
+        guard = self._eval(_SymBool().visit(copy.deepcopy(self.guard)), ns)
+        piece(**{self.to: shim.sym('to', (m,)), self.eps: shim.sym('eps', (m,))})
+        self._exec(copy.deepcopy(self.post), ns)
+        out = self._eval(copy.deepcopy(self.ret), ns)
+        return {'to0': to0, 'step': step, 'eps': eps, 'num': num, 'guard': shim.B.lift(guard), 'out': out, 'm': m}
 
 
 def _np_size(x):
